@@ -129,10 +129,21 @@ Definition find_unit (identifier : string) : option unit :=
 Section Convert.
   Variable A : arith.
 
-  (* the body of units::convert once both units are resolved *)
+  (* from.identifiers == to.identifiers  (slices of &'static str compared by content) *)
+  Definition same_ids (a b : unit) : bool :=
+    if list_eq_dec string_dec (u_ids a) (u_ids b) then true else false.
+
+  (* going through the category's base unit *)
+  Definition through_base (value : T A) (from to : unit) : T A :=
+    convert_from_base A to (convert_to_base A from value).
+
+  (* the body of units::convert once both units are resolved: category check, then the
+     self-conversion short-circuit (fix e6d26e9: "converting a unit to itself returns the value
+     unchanged"), then via the base unit *)
   Definition convert_units (value : T A) (from to : unit) : ures (T A) :=
     if negb (String.eqb (u_cat from) (u_cat to)) then UErr ECategory
-    else UOk (convert_from_base A to (convert_to_base A from value)).
+    else if same_ids from to then UOk value
+    else UOk (through_base value from to).
 
   Definition convert_with (units : list unit) (lower : string -> string)
              (value : T A) (from_unit to_unit : string) : ures (T A) :=
@@ -145,28 +156,8 @@ Section Convert.
         end
     end.
 
-  (* pub fn convert(value, from_unit, to_unit) — the code as it is today *)
+  (* pub fn convert(value, from_unit, to_unit) *)
   Definition convert := convert_with all_units to_lowercase.
-
-  (* the repaired code proposed in fixes/C17-self-conversion-identity.diff: after the category
-     check, `if from.identifiers == to.identifiers { return Ok(value); }` *)
-  Definition same_ids (a b : unit) : bool :=
-    if list_eq_dec string_dec (u_ids a) (u_ids b) then true else false.
-  Definition convert_units_fixed (value : T A) (from to : unit) : ures (T A) :=
-    if negb (String.eqb (u_cat from) (u_cat to)) then UErr ECategory
-    else if same_ids from to then UOk value
-    else UOk (convert_from_base A to (convert_to_base A from value)).
-  Definition convert_fixed_with (units : list unit) (lower : string -> string)
-             (value : T A) (from_unit to_unit : string) : ures (T A) :=
-    match resolve_in units from_unit (lower from_unit) with
-    | UErr e => UErr e
-    | UOk from =>
-        match resolve_in units to_unit (lower to_unit) with
-        | UErr e => UErr e
-        | UOk to => convert_units_fixed value from to
-        end
-    end.
-  Definition convert_fixed := convert_fixed_with all_units to_lowercase.
 End Convert.
 
 (* ------------------------------------------------------------------ the `convert` built-in *)
@@ -200,9 +191,9 @@ Fixpoint dedup (l : list string) : list string :=
   | x :: r => if str_in x r then dedup r else x :: dedup r
   end.
 Definition dup_idents : list string := dedup (filter dup_listed all_idents).
-(* the duplicated identifiers recorded as open known finding C17-dup-ident (known/C17.json): a
-   duplicated identifier outside this list is a new defect, not a known one *)
-Definition known_dup_idents : list string := ["c"%string].
+(* the duplicated identifiers recorded as OPEN known findings (known/C17.json): none since fix
+   478f22e ("the coulomb symbol is C"); a duplicated identifier outside this list is a new defect *)
+Definition known_dup_idents : list string := [].
 
 Definition unit_eqb (a b : unit) : bool := u_idx a =? u_idx b.
 Definition resolves_to (s : string) (u : unit) : bool :=
@@ -336,18 +327,17 @@ Definition show_Z (z : Z) : string := dec_digits 20 z "".
    two identifiers once and then runs the body of convert for every magnitude; it equals
    map (fun v => convert A v from to) (UnitsLaws.convert_many_spec), and is only there to make the
    correspondence run fast. *)
-Definition convert_many (A : arith) (fixed : bool) (vs : list (T A)) (from_unit to_unit : string)
-  : list (ures (T A)) :=
+Definition convert_many (A : arith) (vs : list (T A)) (from_unit to_unit : string) : list (ures (T A)) :=
   match resolve_unit from_unit with
   | UErr e => map (fun _ => UErr e) vs
   | UOk from =>
       match resolve_unit to_unit with
       | UErr e => map (fun _ => UErr e) vs
-      | UOk to => map (fun v => if fixed then convert_units_fixed A v from to else convert_units A v from to) vs
+      | UOk to => map (fun v => convert_units A v from to) vs
       end
   end.
-Definition show_units_line (fixed : bool) (from to : string) (bits : list Z) : string :=
-  join_comma (map show_conv (convert_many fl fixed (map num_of_bits bits) from to)).
+Definition show_units_line (from to : string) (bits : list Z) : string :=
+  join_comma (map show_conv (convert_many fl (map num_of_bits bits) from to)).
 Definition show_resolve (s : string) : string :=
   match resolve_unit s with UOk u => "OK:" ++ show_Z (u_idx u) | UErr e => show_uerr e end
   ++ "|" ++ (match resolve_unit s, find_unit s with UOk _, Some _ | UErr _, None => "1" | _, _ => "0" end).
